@@ -333,3 +333,16 @@ package boltz
 //@   nosafety
 //@   modifies cowLen[store.entityConstraints], cowAt[store.entityConstraints], cowTyp[store.entityConstraints]
 //@   ensures[one-adapter-for-every-given-type] cowLen[store.entityConstraints] == old(cowLen[store.entityConstraints]) + 1 && istype(appended(store), *entityListenerAdapter) && listensFor(appended(store), changeType, changeTypes)
+
+// an untyped constraint registered on a store is a plain forwarder: every state the store delivers - a parent store's
+// derived event too - reaches the wrapped constraint, before and after the commit
+//@ func (UntypedEntityConstraint).ProcessPostCommit
+//@   modifies *
+//@ func (UntypedEntityConstraint).ProcessPreCommit
+//@   modifies *
+//@ func (*untypedEntityConstraintWrapper).ProcessPostCommit
+//@   props C08
+//@   nosafety
+//@   modifies *
+//@   callpre[forwards-the-state-it-was-given] ProcessPostCommit@1: recv == self.constraint && ref(arg0) == ref(state)
+//@   lensures[always-forwards] called(ProcessPostCommit, 1)
